@@ -6,7 +6,7 @@ cd $HERE
 IDS=${*:-$(python3 -c "import json;print(' '.join(c['property_id'] for c in json.load(open('MANIFEST.json'))['checks']))")}
 for c in $IDS; do
   t0=$(date +%s)
-  VERIF_SEED=$SEED ./check $c --tier $TIER > /var/tmp/sweep.$c.$SEED.log 2>&1; rc=$?
+  VERIF_SEED=$SEED ./check $c --tier $TIER > /var/tmp/sweep.$c.$SEED.$TIER.log 2>&1; rc=$?
   t1=$(date +%s)
-  echo "$c seed=$SEED tier=$TIER exit=$rc $((t1-t0))s viol=$(grep -c '^VIOLATION' /var/tmp/sweep.$c.$SEED.log) known=$(grep -c '^KNOWN-FINDING' /var/tmp/sweep.$c.$SEED.log) $(grep '^BROKEN' /var/tmp/sweep.$c.$SEED.log | cut -c1-160)"
+  echo "$c seed=$SEED tier=$TIER exit=$rc $((t1-t0))s viol=$(grep -c '^VIOLATION' /var/tmp/sweep.$c.$SEED.$TIER.log) known=$(grep -c '^KNOWN-FINDING' /var/tmp/sweep.$c.$SEED.$TIER.log) $(grep '^BROKEN' /var/tmp/sweep.$c.$SEED.$TIER.log | cut -c1-160)"
 done
